@@ -11,9 +11,10 @@ and decides the exit status (property C06).  Mirrors, branch by branch:
 * `pkg/extractor/batchers/batcher.go`     `syncReaderToBatcher` (`OnError` ⇒ `incErrors`)     → `runStream`
 * `cmd/helpers/exitCodes.go`              `DetermineErrorState`, `main.go` `main`             → `exitCode`
 
-The file system (`os.Stat`, `filepath.Glob`, `filepath.Walk`, `os.Open`/`Read`) and
-`compress/gzip` are ORACLES: their answers are data handed to the model (`FsOracle`,
-`FileOracle`).  The scanner is represented by its C04 specification `splitLines` (C04 proves the
+`os.Open`/`Read` and `compress/gzip` are ORACLES: their answers are data handed to the model
+(`FileOracle`).  The file system as `GlobExpand` sees it is a parameter here (`FsOracle`: `os.Stat`,
+`filepath.Glob`, `filepath.Walk`); `Rare.C06.treeFs` (`Model/C06Tree.lean`) computes it from an abstract
+directory tree with the Lean model of path resolution and `path/filepath` (`Model/C06Glob.lean`).  The scanner is represented by its C04 specification `splitLines` (C04 proves the
 real scanner meets it for every chunking and fault position, and that `OnError` fires at most once).
 -/
 namespace Rare.C06
